@@ -130,9 +130,12 @@ def check(ctx):
                 r = raw_operand_place(add, c.args[1])
                 dd = single_def(add, r[0]) if r else None
                 if dd and dd[0] == "assign" and dd[3][0] == "agg" and dd[3][2] == "std::ops::Range":
-                    s0 = term_str(add, operand_term(add, dd[3][4][0]))
-                    s1 = term_str(add, operand_term(add, dd[3][4][1]))
-                    slice_ok = "start" in s0 and "end" in s1
+                    # the *selected* field of each bound (the printed term of a struct literal mentions all its fields)
+                    def last_field(t):
+                        return t[2][-1] if t[0] in ("path", "proj") and t[2] else None
+                    t0, t1 = operand_term(add, dd[3][4][0]), operand_term(add, dd[3][4][1])
+                    slice_ok = last_field(t0) == "start" and last_field(t1) == "end" and \
+                        (t0[1] == t1[1] if t0[0] == t1[0] else False)
     ctx.check(tt_ok and slice_ok, "R14.2", "TokenBuffer::add|gap-token-text-and-type",
               "the gap token has type INVALID_TOKEN and the text input[gap.start..gap.end]",
               "the gap token is not (INVALID_TOKEN, input[gap.start..gap.end])", where(add))
